@@ -21,6 +21,7 @@ type Env struct {
 	eargs map[types.Object]Value
 	snap  *State // state at loop entry (unchanged)
 	cells map[token.Pos]*ssa.Alloc
+	multi map[token.Pos][]*ssa.Alloc // several cells per position (type-switch variables: one per case clause)
 	ct    *Contract
 }
 
@@ -33,14 +34,17 @@ func (u *Unit) cellsOf(fn *ssa.Function) map[token.Pos]*ssa.Alloc {
 		return m
 	}
 	m := map[token.Pos]*ssa.Alloc{}
+	mm := map[token.Pos][]*ssa.Alloc{}
 	for _, b := range fn.Blocks {
 		for _, in := range b.Instrs {
 			if a, ok := in.(*ssa.Alloc); ok && a.Pos().IsValid() {
 				m[a.Pos()] = a
+				mm[a.Pos()] = append(mm[a.Pos()], a)
 			}
 		}
 	}
 	u.cellTab[fn] = m
+	u.cellMulti[fn] = mm
 	return m
 }
 
@@ -59,6 +63,7 @@ func (u *Unit) invEnv(st *State, fr *Frame, b *ssa.BasicBlock) *Env {
 	env := u.paramEnv(st, fr.fn, fr.entryArgs, fr.entrySt)
 	env.fr = fr
 	env.cells = u.cellsOf(fr.fn)
+	env.multi = u.cellMulti[fr.fn]
 	env.snap = fr.loopSnap[b]
 	// parameters live in cells in naive form: invariants see the current value
 	for _, p := range fr.fn.Params {
@@ -95,6 +100,12 @@ func (env *Env) lookup(obj types.Object, name string) Value {
 			if p, ok := env.fr.regs[a]; ok {
 				v, _ := env.u.load(env.st, env.fr, p, nil)
 				return v
+			}
+			for _, a2 := range env.multi[obj.Pos()] {
+				if p, ok := env.fr.regs[a2]; ok && types.Identical(a2.Type().(*types.Pointer).Elem(), obj.Type()) {
+					v, _ := env.u.load(env.st, env.fr, p, nil)
+					return v
+				}
 			}
 			specFail("local %s is not in scope at this cut point", name)
 		}
@@ -430,6 +441,25 @@ func (env *Env) evalCall(cl *Clause, x *ast.CallExpr) Value {
 		if aok && bok {
 			return BoolV{And(BoolK(a.R == b.R), Eq(a.Off, b.Off), Eq(a.Len, b.Len))}
 		}
+	case "isSuffix": // a is a suffix of b (same backing array, same end)
+		a, aok := env.eval(cl, x.Args[0]).(SliceV)
+		b, bok := env.eval(cl, x.Args[1]).(SliceV)
+		if aok && bok {
+			if a.R != b.R {
+				return BoolV{And(Eq(a.Len, IntK(0)), Eq(b.Len, IntK(0)))}
+			}
+			return BoolV{And(IntLe(b.Off, a.Off), Eq(IntAdd(a.Off, a.Len), IntAdd(b.Off, b.Len)))}
+		}
+	case "traceBytes": // first []byte argument of the k-th recorded call (contract calls and callbacks)
+		k := env.eval(cl, x.Args[0]).(IntV)
+		if k.T.C != nil && k.T.C.Sign() >= 0 && int(k.T.C.Int64()) < len(st.trace) {
+			for _, a := range st.trace[k.T.C.Int64()].args {
+				if sl, ok := a.(SliceV); ok {
+					return sl
+				}
+			}
+		}
+		return u.havoc(st, cl.Info.Types[x].Type, "tracebytes")
 	case "isType":
 		v := env.eval(cl, x.Args[0])
 		T := cl.Info.Types[x.Args[1]].Type
